@@ -617,6 +617,18 @@ func (e *evalEnv) sliceOfArrayAddr(base tv, x *ast.SliceExpr) tv {
 	return tv{term: fmt.Sprintf("(mkSlice %s (+ %s %s) (- %s %s) (- %d %s))", base.ref, base.off, mulConst(slots(at.Elem()), lo), hi, lo, at.Len(), lo), typ: types.NewSlice(at.Elem())}
 }
 
+// rangeOf: the object and slot range [lo,hi) a modifies target denotes (lo == "": the whole object)
+func rangeOf(v tv) (modRange, bool) {
+	switch u := v.typ.Underlying().(type) {
+	case *types.Slice:
+		return modRange{fmt.Sprintf("(sref %s)", v.term), fmt.Sprintf("(soff %s)", v.term), fmt.Sprintf("(+ (soff %s) %s)", v.term, mulConst(slots(u.Elem()), fmt.Sprintf("(sllen %s)", v.term)))}, true
+	case *types.Pointer:
+		return modRange{fmt.Sprintf("(pref %s)", v.term), fmt.Sprintf("(poff %s)", v.term), fmt.Sprintf("(+ (poff %s) %d)", v.term, slots(u.Elem()))}, true
+	}
+	r, ok := refOf(v)
+	return modRange{r, "", ""}, ok
+}
+
 func refOf(v tv) (string, bool) {
 	switch v.typ.Underlying().(type) {
 	case *types.Slice:
@@ -858,7 +870,7 @@ func (e *evalEnv) call(x *ast.CallExpr) tv {
 	}
 	rt := sig.Results().At(0).Type()
 	fname := sf.smtName
-	if e.limited == sf {
+	if e.limited != nil && (e.limited == sf || e.g.eng.specSCC(e.limited.name) == e.g.eng.specSCC(sf.name)) {
 		fname += "_L"
 	}
 	return tv{term: fmt.Sprintf("(%s %s)", fname, strings.Join(args, " ")), typ: rt, spec: isSpecSeqType(rt)}
@@ -1298,6 +1310,17 @@ func (cs *callSite) modRefKinds(st *State) []modTarget {
 			mt.off = fmt.Sprintf("(soff %s)", v.term)
 			mt.len = mulConst(n, fmt.Sprintf("(sllen %s)", v.term))
 		}
+		if pt, ok := v.typ.Underlying().(*types.Pointer); ok {
+			if n := slots(pt.Elem()); n <= 40 {
+				mt.off = fmt.Sprintf("(poff %s)", v.term)
+				mt.len = fmt.Sprint(n)
+				mt.slotsK = map[string][]int{}
+				kindSlots(pt.Elem(), 0, mt.slotsK)
+			} else {
+				mt.off = fmt.Sprintf("(poff %s)", v.term)
+				mt.len = fmt.Sprint(n)
+			}
+		}
 		out = append(out, mt)
 	}
 	return out
@@ -1314,6 +1337,25 @@ func (cs *callSite) recvSliceRefs(st *State) []string {
 	var out []string
 	for _, off := range sliceSlots(pt.Elem(), 0) {
 		out = append(out, fmt.Sprintf("(sref %s)", sel(st.H["L"], fmt.Sprintf("(pref %s)", cs.args[0]), fmt.Sprintf("(+ (poff %s) %d)", cs.args[0], off))))
+	}
+	return out
+}
+
+// modRanges: the callee's modifies targets as (object, slot range) at the call
+func (cs *callSite) modRanges(st *State) []modRange {
+	var out []modRange
+	for _, m := range cs.ct.Modifies {
+		cs.ensureLets()
+		e := cs.env(st, nil)
+		v := e.value(e.eval(m.Expr))
+		r, ok := rangeOf(v)
+		if !ok {
+			panic(contractError{fmt.Sprintf("%s: modifies target has no reference: %s", m.Where, m.Text)})
+		}
+		out = append(out, r)
+	}
+	for _, r := range cs.recvSliceRefs(st) {
+		out = append(out, modRange{r, "", ""})
 	}
 	return out
 }
